@@ -269,7 +269,22 @@ func newC10World(cfg c10cfg) (*c10world, error) {
 	pattern := "r.$id"
 	switch cfg.trans {
 	case "id":
-		sh.Transformer = store.IDTransformer("id", nil)
+		// one transformer value serves two handlers (as when a handler option is reused for several
+		// patterns); the other handler, on a store of its own, publishes first
+		tr := store.IDTransformer("id", nil)
+		sh.Transformer = tr
+		other := mockstore.NewStore()
+		if pv := core.Catch(func() { s.Handle("zz.$id.sub", res.Model, store.Handler{Store: other, Transformer: tr}) }); pv != nil {
+			w.clean()
+			return nil, fmt.Errorf("Handle panicked: %v", pv)
+		}
+		defer func() {
+			if w.h != nil {
+				t := other.Write("9")
+				t.Create(map[string]interface{}{"first": true})
+				t.Close()
+			}
+		}()
 	case "failing":
 		// values marked as retired are hidden: Transform fails with the not-found error
 		sh.Transformer = store.TransformFuncs(
@@ -362,7 +377,14 @@ func (w *c10world) storeID(id string) string {
 }
 
 // mutate applies one store mutation; v == nil deletes.
-func (w *c10world) mutate(id string, v interface{}) error {
+func (w *c10world) mutate(id string, v interface{}) (err error) {
+	// the store handler's change callback runs inside Update/Create/Delete: a panic there is an
+	// announcement that did not happen, not a reason to stop the check
+	defer func() {
+		if pv := recover(); pv != nil {
+			err = fmt.Errorf("the store's change callback panicked: %v", pv)
+		}
+	}()
 	txn := w.st.Write(w.storeID(id))
 	defer txn.Close()
 	if v == nil {
@@ -378,7 +400,12 @@ func (w *c10world) mutate(id string, v interface{}) error {
 // exist yet is only created (what a client holds after a create followed by further events in the same
 // transaction is not defined by the property); an existing one is updated repeatedly, possibly deleted,
 // and updated again after the delete - which must fail and publish nothing.
-func (w *c10world) mutateSeq(id string, vs []interface{}) error {
+func (w *c10world) mutateSeq(id string, vs []interface{}) (err error) {
+	defer func() {
+		if pv := recover(); pv != nil {
+			err = fmt.Errorf("the store's change callback panicked: %v", pv)
+		}
+	}()
 	txn := w.st.Write(w.storeID(id))
 	defer txn.Close()
 	if !txn.Exists() {
@@ -422,7 +449,10 @@ func (w *c10world) observeSeq(id string, vs []interface{}, dbg string) (rec, err
 		return w.observe(id, nil, dbg)
 	}
 	from := len(w.h.conn.Pubs())
-	merr := w.mutateSeq(id, vs)
+	var merr error
+	if pv := core.Catch(func() { merr = w.mutateSeq(id, vs) }); pv != nil {
+		merr = fmt.Errorf("the store's change callback panicked: %v", pv)
+	}
 	evs, stray, _ := w.h.eventsSince(from, rid)
 	after, err := w.h.get(rid)
 	if err != nil {
@@ -440,7 +470,10 @@ func (w *c10world) observe(id string, v interface{}, dbg string) (rec, error) {
 		return nil, err
 	}
 	from := len(w.h.conn.Pubs())
-	merr := w.mutate(id, v)
+	var merr error
+	if pv := core.Catch(func() { merr = w.mutate(id, v) }); pv != nil {
+		merr = fmt.Errorf("the store's change callback panicked: %v", pv)
+	}
 	evs, stray, _ := w.h.eventsSince(from, rid)
 	after, err := w.h.get(rid)
 	if err != nil {
